@@ -97,7 +97,7 @@ fn decrypt_on<T: Backend, M: BytesPayload>(token: &str, key_raw: &[u8; 32], i: &
     Ok((u.claims.bytes().to_vec(), u.footer))
 }
 
-fn local_case<B: Backend>(c: &LCase, acc: &mut Acc) -> R {
+pub fn local_case<B: Backend>(c: &LCase, acc: &mut Acc) -> R {
     if c.suffix {
         model::with_suffix(<RawS as paseto_core::encodings::Payload>::SUFFIX, || local_case_m::<B, RawS>(c, acc))
     } else {
@@ -321,7 +321,7 @@ fn independent_verify(ver: Ver, pk_raw: &[u8], pre: &[u8], sig: &[u8], backend: 
     }
 }
 
-fn public_case<B: Backend>(c: &PCase, acc: &mut Acc) -> R {
+pub fn public_case<B: Backend>(c: &PCase, acc: &mut Acc) -> R {
     if c.suffix {
         model::with_suffix(<RawS as paseto_core::encodings::Payload>::SUFFIX, || public_case_m::<B, RawS>(c, acc))
     } else {
